@@ -84,7 +84,7 @@ PROPS = {
  'C15': {
   'rule': 'valid archives written by the harness (2..13 entries, runs, shared offsets, clustered and unordered layouts, 0..2 leaf levels, gzip/none, plain and 16 KiB-padded layouts) '
           'and every single-field / single-entry corruption of each: addressed/entries/contents +-1, min/max/center zoom, degenerate bounds, data/metadata length +-1, each section offset set to 0, '
-          'file truncated/extended, clustered flag on an unordered archive, an entry moved outside the tile data, an entry shifted backwards to an unused offset. All cases non-trivial; distinct by case line',
+          'file truncated/extended, clustered flag on an unordered archive, an entry moved outside the tile data, an entry shifted backwards to an unused offset. Archives written by the real Cluster and Convert (dedup on/off) from consistent inputs whose tiles sit around a zoom boundary with equal contents, so that runs cross it, also at the very end, must verify. All cases non-trivial; distinct by case line',
   'trusted_base': [GZIP, 'roaring64 bitmap modelled as a duplicate-free list of offsets', 'the local-file bucket and os.Stat (file size)'],
   'assumptions': ['directories are readable (the harness writes them); archives have at least one entry'],
   'explanation': 'The verify model is compared with pmtiles.Verify on every valid archive and every corruption; the oracle knows by construction which files are consistent.',
@@ -139,7 +139,9 @@ PROPS = {
  'C08': {
   'uses_generated': True,
   'rule': 'schedules with 1..2 archives, warm or cold cache, 2..6 tile requests and 0..3 replacements (new versions with different sizes, layouts, leaf structures; occasional deletion) placed before or between '
-          'the releases of blocked bucket calls. Non-trivial: at least one replacement; distinct by case line',
+          'the releases of blocked bucket calls; systematic schedules: one tile request, every placement of up to two replacements among its bucket calls x cold/warm cache x with/without a replacement completed beforehand, '
+          'versions sharing tile ids and tile type but not layout; micro schedules: the event loop held inside the trace sink at one request\'s header lookup while another request\'s purging retry queues up '
+          '(oracle only, the executable model is macro-step). Non-trivial: at least one replacement; distinct by case line',
   'trusted_base': ['the Go scheduler, channel semantics and real time are abstracted to an interleaving LTS at the granularity of loop messages and bucket calls (coq/Model/Server.v)',
                    'the scheduling bucket of the harness stands for the bucket contract of the property (tag per version, conditional reads honoured)',
                    'quiescence of the real server is detected from goroutine states (runtime.Stack)', GZIP],
